@@ -4,7 +4,7 @@ results.txt is the output of tools/run_seeded.sh (one line per seeded change).""
 import json, re, sys, os, glob
 res = {}
 for l in open(sys.argv[1]):
-    m = re.match(r'(C\d+-m\d+): (caught by \[([^\]]*)\]\s*(.*)|MISSED|SKIP.*)', l.strip())
+    m = re.match(r'(C\d+-m\d+): (caught by \[([^\]]*)\]\s*(.*)|MISSED|SKIP.*|OBSOLETE.*)', l.strip())
     if m:
         res[m.group(1)] = (m.group(3), m.group(4)) if m.group(3) is not None else (None, m.group(2))
 rows = ["| id | round | change (one line) | first reaction | now caught by |", "|---|---|---|---|---|"]
